@@ -63,7 +63,7 @@ structure Cache where
   conn : Option Nat        -- cache.connection
   inTx : Bool              -- cache.in_transaction
   immediate : Bool         -- cache.immediate
-  savedFk : Bool           -- truth value of cache.saved_fk_state
+  savedFk : Option Bool    -- cache.saved_fk_state (None / True / False)
   pending : List Bool      -- cache.modified ⇔ pending ≠ []: statements flush() will issue (true = executemany)
   deriving Repr, Inhabited
 
@@ -245,13 +245,23 @@ def provExecute (cf : Cfg) (con : Nat) (q : Sql) (many : Bool) : M Unit := wrap 
 
 /-! ### SQLiteProvider -/
 
-/-- `acquire_lock`; a lock that is already held by this thread would block for ever -/
-def acquireLock : M Unit := fun s =>
-  if s.pre then (.error .deadlock, { s with bad := true }) else
-  let s1 := { s with pre := true, trace := Ev.preAcquire :: s.trace }
-  -- try: transaction_lock.acquire()  finally: pre_transaction_lock.release()
-  if s1.lock then (.error .deadlock, { s1 with bad := true }) else
-  (.ok (), { s1 with lock := true, pre := false, trace := Ev.preRelease :: Ev.acquire :: s1.trace })
+/-- `lock.acquire()` of a lock this thread already holds would block for ever (`deadlock`) -/
+def preAcquire : M Unit := fun s =>
+  if s.pre then (.error .deadlock, { s with bad := true })
+  else (.ok (), { s with pre := true, trace := Ev.preAcquire :: s.trace })
+
+def txAcquire : M Unit := fun s =>
+  if s.lock then (.error .deadlock, { s with bad := true })
+  else (.ok (), { s with lock := true, trace := Ev.acquire :: s.trace })
+
+def preRelease : M Unit := fun s =>
+  if s.pre then (.ok (), { s with pre := false, trace := Ev.preRelease :: s.trace })
+  else (.error .unlocked, { s with bad := true })
+
+/-- `acquire_lock`: pre_transaction_lock.acquire(); try: transaction_lock.acquire()  finally: pre_transaction_lock.release() -/
+def acquireLock : M Unit := do
+  preAcquire
+  tryFinally txAcquire preRelease
 
 /-- `release_lock` -/
 def releaseLock : M Unit := fun s =>
@@ -270,7 +280,8 @@ def setTransactionMode (cf : Cfg) (con : Nat) : M Unit := wrap do
         let s ← getS
         let fk := s.fk
         if fk then conExecute cf con .pragmaFkOff
-        modC (fun c => { c with savedFk := fk })
+        -- if fk or cache.saved_fk_state is None: cache.saved_fk_state = bool(fk)      (a remembered True is not overwritten)
+        if fk || s.cache.savedFk.isNone then modC (fun c => { c with savedFk := some fk })
         let s ← getS
         assertM s.cache.immediate
       let s ← getS
@@ -301,7 +312,7 @@ def baseRelease (cf : Cfg) (con : Nat) : M Unit := wrap do
 /-- `SQLiteProvider.release` -/
 def provRelease (cf : Cfg) (con : Nat) : M Unit := wrap do
   let s ← getS
-  if cf.ddl && s.cache.savedFk then
+  if cf.ddl && s.cache.savedFk == some true then
     tryCatch (do
         conCursor cf con
         conExecute cf con .pragmaFkOn)
@@ -317,7 +328,7 @@ def getCache (cf : Cfg) : M Unit := do
   let s ← getS
   if !s.hasCache then
     modS (fun s => { s with hasCache := true,
-                            cache := { conn := none, inTx := false, immediate := cf.immediate, savedFk := false, pending := [] } })
+                            cache := { conn := none, inTx := false, immediate := cf.immediate, savedFk := none, pending := [] } })
 
 /-- `Database.call_on_connect(con)`: for each registered hook `func(database, con); con.commit()` (neither is wrapped;
     the hook's own statements are the user's business and not modelled) -/
@@ -526,7 +537,7 @@ def dbSession (cf : Cfg) (prog : List (Op × Bool)) (bodyRaises : Bool) : M Unit
 def St.init : St :=
   { n := 0, lock := false, pre := false, bad := false, poolCon := none, poolPid := false, nextCon := 0,
     closed := [], fk := false, dirty := false, hasCache := false,
-    cache := { conn := none, inTx := false, immediate := false, savedFk := false, pending := [] }, trace := [] }
+    cache := { conn := none, inTx := false, immediate := false, savedFk := none, pending := [] }, trace := [] }
 
 /-- several sessions one after the other in one thread; `cfs i` gives the options and the program of session i.
     The oracle indexes calls globally (`St.n` is not reset). -/
